@@ -1221,4 +1221,207 @@ theorem solo_run {d : Disk} {t : TxId} : ∀ (sched : List Label) (acc) (s s' : 
         simpa using this
       rw [e]; exact this
 
+/-! ### no two transactions overlap on one cache name -/
+
+/-- Prop form of `doneWith` -/
+def Done (s : State) (u : TxId) (n : Name) : Prop :=
+  ∃ tx, s.txs u = some tx ∧ tx.isOpen = false ∧ (tx.isWrite = true → tx.cur n = none)
+
+theorem doneWith_iff (s : State) (u : TxId) (n : Name) : doneWith s u n = true ↔ Done s u n := by
+  unfold doneWith Done
+  cases h : s.txs u with
+  | none => simp
+  | some tx =>
+    simp only [Option.some.injEq, exists_eq_left']
+    cases tx.isOpen <;> cases tx.isWrite <;> cases tx.cur n <;> simp
+
+theorem mayAccess_spec {s : State} {t : TxId} {n : Name} (h : mayAccess s t n = true) :
+    ∃ tx, s.txs t = some tx ∧ ∀ u ∈ s.users n, u ≠ t → Done s u n ∧ endVerOf s u ≤ tx.snap := by
+  unfold mayAccess at h
+  cases ht : s.txs t with
+  | none => simp [ht] at h
+  | some tx =>
+    simp only [ht, List.all_eq_true, Bool.or_eq_true, beq_iff_eq, Bool.and_eq_true, decide_eq_true_eq] at h
+    refine ⟨tx, rfl, ?_⟩
+    intro u hu hne
+    rcases h u hu with e | ⟨hd, he⟩
+    · exact absurd e hne
+    · exact ⟨(doneWith_iff s u n).1 hd, he⟩
+
+/-- the observation part shared by the private and the no-overlap invariants -/
+structure ObsInv (s : State) : Prop where
+  seen : ∀ t tx i, s.txs t = some tx → tx.isWrite = false → i ∈ tx.seen → ∃ n, tx.view.idx n i ≠ none
+  viewIn : ∀ t tx, s.txs t = some tx → tx.isWrite = false → tx.view ∈ s.disks
+  f13 : Flags13 s
+  f2 : (∀ d ∈ s.disks, d.WF) → s.bad ≠ some .u2 ∧ ∀ t tx, s.txs t = some tx → tx.u2 = false
+
+theorem obsInv_init (sh : Bool) (d0 : Disk) : ObsInv (init sh d0) := by
+  refine ⟨?_, ?_, ⟨Or.inl rfl, ?_⟩, ?_⟩ <;> intros <;> simp_all [init]
+
+theorem obs_transfer {s s' : State} (h : ObsInv s) (hd : ∀ d ∈ s.disks, d ∈ s'.disks) (hb : s'.bad = s.bad)
+    (htx : ∀ u tx', s'.txs u = some tx' →
+      (tx'.seen = [] ∧ tx'.u1 = false ∧ tx'.u2 = false ∧ tx'.u3 = false ∧ tx'.view ∈ s'.disks) ∨
+      ∃ tx, s.txs u = some tx ∧ (tx'.view = tx.view ∨ tx'.isWrite = true) ∧ tx'.isWrite = tx.isWrite ∧
+        (∀ i ∈ tx'.seen, i ∈ tx.seen ∨ ∃ n, tx'.view.idx n i ≠ none) ∧ tx'.u1 = tx.u1 ∧ tx'.u2 = tx.u2 ∧ tx'.u3 = tx.u3) :
+    ObsInv s' := by
+  refine ⟨?_, ?_, ⟨by rw [hb]; exact h.f13.bad, ?_⟩, ?_⟩
+  · intro t tx' i ht hw hi
+    rcases htx t tx' ht with ⟨hs, _⟩ | ⟨tx, h1, hv, hw', hs, _⟩
+    · rw [hs] at hi; simp at hi
+    · rcases hs i hi with hold | hnew
+      · rcases hv with hv | hv
+        · rw [hv]; exact h.seen t tx i h1 (hw' ▸ hw) hold
+        · rw [hw] at hv; simp at hv
+      · exact hnew
+  · intro t tx' ht hw
+    rcases htx t tx' ht with ⟨_, _, _, _, hin⟩ | ⟨tx, h1, hv, hw', _⟩
+    · exact hin
+    · rcases hv with hv | hv
+      · rw [hv]; exact hd _ (h.viewIn t tx h1 (hw' ▸ hw))
+      · rw [hw] at hv; simp at hv
+  · intro t tx' ht
+    rcases htx t tx' ht with ⟨_, e1, _, e3, _⟩ | ⟨tx, h1, _, _, _, e1, _, e3⟩
+    · exact ⟨e1, e3⟩
+    · rw [e1, e3]; exact h.f13.tx t tx h1
+  · intro hwf
+    have := h.f2 (fun d hdd => hwf d (hd d hdd))
+    refine ⟨by rw [hb]; exact this.1, ?_⟩
+    intro t tx' ht
+    rcases htx t tx' ht with ⟨_, _, e2, _⟩ | ⟨tx, h1, _, _, _, _, e2, _⟩
+    · exact e2
+    · rw [e2]; exact this.2 t tx h1
+
+macro "obs_same'" ht:ident : tactic =>
+  `(tactic| (intro u tx' hu
+             rcases upd_some_cases hu with hcase | hcase
+             · obtain ⟨e1, e2⟩ := hcase
+               subst e1; subst e2
+               exact Or.inr ⟨_, $ht, Or.inl rfl, rfl, fun i hi => Or.inl hi, rfl, rfl, rfl⟩
+             · exact Or.inr ⟨tx', hcase.2, Or.inl rfl, rfl, fun i hi => Or.inl hi, rfl, rfl, rfl⟩))
+
+/-- `ObsInv` is kept by every step as long as an open transaction reads through its own handle an
+object whose cached items agree with its view -/
+theorem obsInv_step {s s' : State} {l : Label} (h : ObsInv s)
+    (hcoh : ∀ t tx n o ob, s.txs t = some tx → tx.isOpen = true → tx.cur n = some o → s.objs o = some ob →
+      ob.owner = t ∧ Agree ob n tx.view)
+    (hs : step s l = some s') : ObsInv s' := by
+  cases l with
+  | beginR t =>
+    obtain ⟨ht, rfl⟩ := stepBeginR_some hs
+    refine obs_transfer h (fun d hd => hd) rfl ?_
+    intro u tx' hu
+    rcases upd_some_cases hu with ⟨rfl, rfl⟩ | ⟨_, hold⟩
+    · exact Or.inl ⟨rfl, rfl, rfl, rfl, latest_mem_disks s⟩
+    · exact Or.inr ⟨tx', hold, Or.inl rfl, rfl, fun i hi => Or.inl hi, rfl, rfl, rfl⟩
+  | beginW t =>
+    obtain ⟨ht, _, rfl⟩ := stepBeginW_some hs
+    refine obs_transfer h (fun d hd => hd) rfl ?_
+    intro u tx' hu
+    rcases upd_some_cases hu with ⟨rfl, rfl⟩ | ⟨_, hold⟩
+    · exact Or.inl ⟨rfl, rfl, rfl, rfl, latest_mem_disks s⟩
+    · exact Or.inr ⟨tx', hold, Or.inl rfl, rfl, fun i hi => Or.inl hi, rfl, rfl, rfl⟩
+  | access t n =>
+    obtain ⟨tx, o, ob', nx, mp, ht, hop, hc, hcase, rfl⟩ := stepAccess_some hs
+    refine obs_transfer h (fun d hd => hd) rfl ?_
+    simp only [withAccess]
+    obs_same' ht
+  | leave t n =>
+    obtain ⟨tx, o, ob, ht, hw, hc, ho, rfl⟩ := stepLeave_some hs
+    refine obs_transfer h (fun d hd => hd) rfl ?_
+    obs_same' ht
+  | read t n i =>
+    obtain ⟨tx, o, ob, ht, hop, hc, ho, hcase⟩ := stepRead_some hs
+    obtain ⟨hown, hag⟩ := hcoh t tx n o ob ht hop hc ho
+    have key : ∀ (s0 : State), s0.txs = s.txs → s0.bad = s.bad → s0.disks = s.disks →
+        ObsInv (observe s0 t tx n i (tx.view.idx n i)) := by
+      intro s0 e1 e2 e3
+      rw [observe_own]
+      refine obs_transfer h (fun d hd => by show d ∈ s0.disks; rw [e3]; exact hd) e2 ?_
+      intro u tx' hu
+      dsimp only at hu
+      rw [e1] at hu
+      rcases upd_some_cases hu with ⟨rfl, rfl⟩ | ⟨_, hold⟩
+      · refine Or.inr ⟨tx, ht, Or.inl rfl, rfl, ?_, rfl, rfl, by simp⟩
+        intro j hj
+        dsimp only at hj
+        split at hj
+        · rename_i hsome
+          simp at hj
+          rcases hj with rfl | hj
+          · refine Or.inr ⟨n, ?_⟩
+            intro hnone; rw [hnone] at hsome; simp at hsome
+          · exact Or.inl hj
+        · exact Or.inl hj
+      · exact Or.inr ⟨tx', hold, Or.inl rfl, rfl, fun i hi => Or.inl hi, rfl, rfl, rfl⟩
+    cases hcase with
+    | hit v k hi =>
+      have hv : tx.view.idx n i = some v := hag i v k hi
+      rw [← hv]; exact key s rfl rfl rfl
+    | dead otx hi hoo hcl =>
+      rw [hown, ht] at hoo
+      simp only [Option.some.injEq] at hoo
+      subst hoo
+      rw [hop] at hcl; simp at hcl
+    | through otx hi hoo hcl =>
+      rw [hown, ht] at hoo
+      simp only [Option.some.injEq] at hoo
+      subst hoo
+      exact key _ rfl rfl rfl
+  | wr t op =>
+    obtain ⟨tx, ht, hw, hop, objs', rfl, hcase⟩ := stepWr_some hs
+    refine obs_transfer h (fun d hd => hd) rfl ?_
+    intro u tx' hu
+    rcases upd_some_cases hu with ⟨rfl, rfl⟩ | ⟨_, hold⟩
+    · exact Or.inr ⟨tx, ht, Or.inr hw, rfl, fun i hi => Or.inl hi, rfl, rfl, rfl⟩
+    · exact Or.inr ⟨tx', hold, Or.inl rfl, rfl, fun i hi => Or.inl hi, rfl, rfl, rfl⟩
+  | backfill t i =>
+    obtain ⟨tx, ht, hw, hop, hseen, hcase⟩ := stepBackfill_some hs
+    rcases hcase with ⟨_, rfl⟩ | ⟨hnone, rfl⟩
+    · exact h
+    · refine ⟨?_, ?_, ⟨?_, ?_⟩, ?_⟩
+      · intro u tx' j hu hw' hj
+        simp only [setBad] at hu
+        rcases upd_some_cases hu with ⟨rfl, rfl⟩ | ⟨_, hold⟩
+        · exact h.seen u tx j ht hw' hj
+        · exact h.seen u tx' j hold hw' hj
+      · intro u tx' hu hw'
+        simp only [setBad] at hu
+        rcases upd_some_cases hu with ⟨rfl, rfl⟩ | ⟨_, hold⟩
+        · exact h.viewIn u tx ht hw'
+        · exact h.viewIn u tx' hold hw'
+      · simp only [setBad]
+        rcases h.f13.bad with hb | hb <;> rw [hb] <;> simp
+      · intro u tx' hu
+        simp only [setBad] at hu
+        rcases upd_some_cases hu with ⟨rfl, rfl⟩ | ⟨_, hold⟩
+        · exact h.f13.tx u tx ht
+        · exact h.f13.tx u tx' hold
+      · intro hwf
+        exfalso
+        have hv : tx.view ∈ s.disks := h.viewIn t tx ht hw
+        have hwfv : tx.view.WF := hwf _ (by simp only [setBad]; exact hv)
+        obtain ⟨n, hn⟩ := h.seen t tx i ht hw hseen
+        exact hwfv n i hn hnone
+  | closeTx t ok =>
+    obtain ⟨tx, ht, hop, hcase⟩ := stepClose_some hs
+    cases hcase with
+    | reader hw hu =>
+      refine obs_transfer h (fun d hd => hd) rfl ?_
+      obs_same' ht
+    | commit hw =>
+      refine obs_transfer h (fun d hd => by simp only [State.disks] at hd ⊢; exact List.mem_cons_of_mem _ hd) rfl ?_
+      obs_same' ht
+    | rollback hw =>
+      refine obs_transfer h (fun d hd => hd) rfl ?_
+      obs_same' ht
+  | release t n =>
+    obtain ⟨tx, o, ob, ht, hw, hop, hc, ho, rfl⟩ := stepRelease_some hs
+    refine obs_transfer h (fun d hd => hd) rfl ?_
+    obs_same' ht
+  | evict n =>
+    simp only [step, stepEvict, Option.some.injEq] at hs
+    subst hs
+    refine obs_transfer h (fun d hd => hd) rfl ?_
+    intro u tx' hu; exact Or.inr ⟨tx', hu, Or.inl rfl, rfl, fun i hi => Or.inl hi, rfl, rfl, rfl⟩
+
 end Sema.C09
